@@ -296,7 +296,8 @@ struct RunLog {
 template <class G>
 struct World {
   using N = typename G::NodeType;
-  std::unique_ptr<G> g;
+  std::vector<std::unique_ptr<G>> movedFrom; // graphs that were move-assigned from: alive until the world ends
+  std::unique_ptr<G> g; // (declared after movedFrom: destroyed first)
   std::vector<N*> node; // id -> node (nullptr when destroyed); node[0] unused
   std::vector<int> sgOf;
   std::unordered_map<const dispenso::Node*, int> idOf;
@@ -425,8 +426,20 @@ struct World {
           forget((int)i);
     } else if (o.op == "move") {
       ctl::note("move", 0, 0);
-      std::unique_ptr<G> g2(new G(std::move(*g)));
-      g = std::move(g2);
+      // both ways a graph can change its address: move construction (the moved-from graph dies at once) and move
+      // ASSIGNMENT into an existing graph (the moved-from graph stays alive, as in `g = makeGraph()` / `g = std::move(built)`
+      // with `built` still in scope).  Every later operation - clear() of a subgraph follows its graph_ back-pointer -
+      // must behave as if nothing had happened (MoveGraph of Graph.tla).
+      static int moves = 0;
+      if ((moves++ & 1) == 0) {
+        std::unique_ptr<G> g2(new G(std::move(*g)));
+        g = std::move(g2);
+      } else {
+        std::unique_ptr<G> g2(new G());
+        *g2 = std::move(*g);
+        movedFrom.push_back(std::move(g));
+        g = std::move(g2);
+      }
     } else if (o.op == "mark") {
       ctl::note("mark", o.a, 0);
       node[(size_t)o.a]->setIncomplete();
